@@ -226,6 +226,14 @@ inductive RevokedIn (g : Glue) (E : C11.Env) (K : C11.KeyEnv) (w0 : C11.World) (
       (hpre : ∀ p ∈ pre, skipped p = true) (hty : s.typ = C01.statusListEntryType) (hv : s.entryValid = true)
       (hpu : s.purpose = "revocation") (hlist : g.urlOf s.listCred = e.list) (hidx : s.index.map Int.ofNat = e.idx) :
       RevokedIn g E K w0 i c (before ++ [.revoke i credId e] ++ after)
+  /-- the list is managed by the OTHER node: node `i` has, at some point, refreshed its record of that list after the issuer set
+      the bit (C11 `Pin`: it holds a record with purpose revocation and the bit set; `refresh_after_revocation_pins` says when) -/
+  | refreshed (before after : List C11.Act) (hc0 : C11.CacheSound w0) (ob iss : String) (p j : Nat)
+      (hpin : C11.Pin (C11.run E K w0 before) i ob iss p j)
+      (pre post : List C01.Status) (s : C01.Status) (hc : c.statuses = some (pre ++ s :: post))
+      (hpre : ∀ p ∈ pre, skipped p = true) (hty : s.typ = C01.statusListEntryType) (hv : s.entryValid = true)
+      (hpu : s.purpose = "revocation") (hlist : g.urlOf s.listCred = .sl ob iss p) (hidx : s.index = some j) :
+      RevokedIn g E K w0 i c (before ++ after)
 
 theorem RevokedIn.extend {g : Glue} {E : C11.Env} {K : C11.KeyEnv} {w0 : C11.World} {i : Bool} {c : C01.Cred} {acts : List C11.Act}
     (h : RevokedIn g E K w0 i c acts) (more : List C11.Act) : RevokedIn g E K w0 i c (acts ++ more) := by
@@ -234,6 +242,8 @@ theorem RevokedIn.extend {g : Glue} {E : C11.Env} {K : C11.KeyEnv} {w0 : C11.Wor
     rw [List.append_assoc]; exact .network before (after ++ more) r n' hacc hc
   | status before after credId e n1 hrev pre post s hc hpre hty hv hpu hlist hidx =>
     rw [List.append_assoc]; exact .status before (after ++ more) credId e n1 hrev pre post s hc hpre hty hv hpu hlist hidx
+  | refreshed before after hc0 ob iss p j hpin pre post s hc hpre hty hv hpu hlist hidx =>
+    rw [List.append_assoc]; exact .refreshed before (after ++ more) hc0 ob iss p j hpin pre post s hc hpre hty hv hpu hlist hidx
 
 theorem revActs_append (a b : List Ev) : revActs (a ++ b) = revActs a ++ revActs b := by
   induction a with
